@@ -101,6 +101,7 @@ static void body(Ctx& C)
       impl::Translation_unit unit { lex };
       Sweep S(lex, unit, rng);
       S.run_all();
+      C.count("operand_twin_requests", S.twin_requests);
       // growth after the fact: sequence types must track later additions
       for (int pass = 0; pass < 3; ++pass) {
          // last pass: after every classic operation, cast and literal was told which user-supplied operation implements it
@@ -124,6 +125,7 @@ static void body(Ctx& C)
    C.need("sequence_type_checks"); C.need("elements_retyped_after_the_list_type_was_read");
    for (int g = 0; g < (C.thorough ? 3000 : 80); ++g) growth(C, seeds.next());
 #endif
+   C.need("operand_twin_requests");
    // every declared factory must have been exercised
    std::string missing;
    for (auto fn : declared_factories) {
